@@ -71,6 +71,10 @@ def enumI {α} (l : List α) : List (Int × α) := (rangeI l.length).zip l
 def upN (a b : Nat) : List Nat := List.range' a (b - a)
 def upI (a b : Int) : List Int := (List.range (b - a).toNat).map (fun k => a + Int.ofNat k)
 
+/-- `for i := a; i < b; i += k` (`k ≥ 1`; the translator admits it only where the loop cannot wrap): a, a+k, … below b -/
+def stepN (a b k : Nat) : List Nat := (List.range ((b - a + k - 1) / k)).map (fun j => a + j * k)
+def stepI (a b : Int) (k : Nat) : List Int := (List.range (((b - a).toNat + k - 1) / k)).map (fun j => a + Int.ofNat (j * k))
+
 /-- `for i := a; i >= b; i--`: a, a-1, …, b -/
 def downN (a b : Nat) : List Nat := (List.range (a + 1 - b)).map (fun k => a - k)
 def downI (a b : Int) : List Int := (List.range (a + 1 - b).toNat).map (fun k => a - Int.ofNat k)
